@@ -51,13 +51,19 @@ func TestC18ChainExchange(t *testing.T) {
 		}
 		capD := rapid.IntRange(2, 16).Draw(t, "discoveredCap")
 		capW := rapid.IntRange(4, 16).Draw(t, "wantedCap")
+		bigChains := rapid.IntRange(0, 39).Draw(t, "bigchains") == 0
+		if bigChains {
+			// chains of up to the maximum length (128 tipsets) need capacities to match
+			capD = rapid.IntRange(128, 160).Draw(t, "discoveredCapBig")
+			capW = rapid.IntRange(128, 160).Draw(t, "wantedCapBig")
+		}
 		lookahead := uint64(rapid.IntRange(0, 3).Draw(t, "lookahead"))
 		maxAge := time.Duration(rapid.IntRange(1, 10).Draw(t, "maxAgeSec")) * time.Second
 		clk := clock.NewMock()
 		clk.Set(time.Unix(1_700_000_000, 0))
 		box := &progressBox{}
 		cur := uint64(rapid.IntRange(1, 20).Draw(t, "instance"))
-		maxLen := min(capD, capW)
+		maxLen := min(capD, capW, 128)
 		baseOf := func(inst uint64) *gpbft.TipSet {
 			return &gpbft.TipSet{Epoch: 10 + int64(inst), Key: vgen.DetBytes(8, "ibase", inst), PowerTable: vgen.DetCid("ibase", inst)}
 		}
@@ -74,6 +80,9 @@ func TestC18ChainExchange(t *testing.T) {
 		// chains: per instance a few branches over the instance's base
 		mkChain := func(label string, inst uint64, b *gpbft.TipSet) *gpbft.ECChain {
 			n := rapid.IntRange(1, maxLen).Draw(t, label+".len")
+			if bigChains && rapid.Bool().Draw(t, label+".long") {
+				n = rapid.IntRange(100, 128).Draw(t, label+".longlen")
+			}
 			ts := []*gpbft.TipSet{b}
 			e := b.Epoch
 			for i := 1; i < n; i++ {
@@ -266,7 +275,7 @@ func TestC18ChainExchange(t *testing.T) {
 				trace = append(trace, fmt.Sprintf("own(i%d,len%d)", inst, c.Len()))
 			case "flood":
 				inst := cur + uint64(rapid.IntRange(0, int(lookahead)).Draw(t, "instoff"))
-				nf := capD + rapid.IntRange(1, 2*capD).Draw(t, "floodsize")
+				nf := capD + rapid.IntRange(1, min(2*capD, 40)).Draw(t, "floodsize")
 				for f := 0; f < nf; f++ {
 					fc := vgen.Chain(baseOf(inst), &gpbft.TipSet{Epoch: baseOf(inst).Epoch + 1, Key: vgen.DetBytes(8, "flood", s, f), PowerTable: vgen.DetCid("flood", s, f)})
 					if ok, v := admit(label, inst, fc, 0, nil); !ok {
@@ -354,7 +363,7 @@ func TestC18ChainExchange(t *testing.T) {
 			}
 		}
 		nt := (askThenReceive > 0 && floods > 0) || (askThenReceive > 0 && prunes > 0)
-		vev.Case(c18, vev.Digest(fmt.Sprint(trace), capD, capW), nt, "history", fmt.Sprintf("ask-then-receive:%v", askThenReceive > 0), fmt.Sprintf("flood:%v", floods > 0), fmt.Sprintf("prune:%v", prunes > 0), fmt.Sprintf("rebroadcast-of-known-chain:%v", rebroadcasts > 0), fmt.Sprintf("chains-sharing-a-prefix:%v", sharedPrefixes > 0))
+		vev.Case(c18, vev.Digest(fmt.Sprint(trace), capD, capW), nt, "history", fmt.Sprintf("ask-then-receive:%v", askThenReceive > 0), fmt.Sprintf("flood:%v", floods > 0), fmt.Sprintf("prune:%v", prunes > 0), fmt.Sprintf("chains-up-to-max-length:%v", bigChains), fmt.Sprintf("rebroadcast-of-known-chain:%v", rebroadcasts > 0), fmt.Sprintf("chains-sharing-a-prefix:%v", sharedPrefixes > 0))
 		vev.Sample(c18, func() any {
 			return map[string]any{"discovered_capacity": capD, "wanted_capacity": capW, "lookahead": lookahead, "trace": trace}
 		})
